@@ -43,16 +43,17 @@ func genProdCase(t *rapid.T) prodCase {
 	case "NewDenseNil", "NewSparseNil", "Complete", "Path", "Star", "Friendship":
 		c.A = small("n", 0, 9)
 	case "NewSparse":
+		c.Seed = int64(small("sortedlists", 0, 1))
 		g := genAnyGraph(t, 8)
 		c.G = specOf(g)
 		c.Lists = make([][]int, g.N)
 		for v := 0; v < g.N; v++ {
 			nb := g.Nbrs(v)
-			if len(nb) > 1 {
+			if len(nb) > 1 && c.Seed%2 == 0 { // otherwise the lists stay ascending and repeat-free, as most callers pass them
 				nb = rapid.Permutation(nb).Draw(t, "shuffle")
 			}
 			l := append([]int{}, nb...)
-			for k := small("repeats", 0, 2); k > 0 && len(nb) > 0; k-- {
+			for k := small("repeats", 0, 2); k > 0 && len(nb) > 0 && c.Seed%2 == 0; k-- {
 				l = append(l, nb[small("which", 0, len(nb)-1)])
 			}
 			c.Lists[v] = l
@@ -71,6 +72,10 @@ func genProdCase(t *rapid.T) prodCase {
 	case "Kneser", "BipartiteKneser":
 		c.A = small("n", 0, 6)
 		c.B = small("k", 0, c.A+1)
+		if c.Prod == "Kneser" && rare(t, "bigkneser", 6) {
+			c.A = small("bign", 33, 36) // beyond the table of small binomials
+			c.B = small("bigk", 1, 2)
+		}
 		if c.Prod == "BipartiteKneser" && c.B > c.A {
 			c.B = c.A // n-k must be non-negative for the second side to exist
 		}
@@ -104,6 +109,33 @@ func genProdCase(t *rapid.T) prodCase {
 		c.Rep = rapid.SampledFrom(repNames).Draw(t, "rep")
 	case "InducedView":
 		g := genAnyGraph(t, 8)
+		if rapid.IntRange(0, 3).Draw(t, "bighost") == 0 {
+			// a few vertices of a large dense-ish host (host degrees many times the size of V)
+			n := small("hostn", 20, 44)
+			g = oracle.New(n)
+			for j := 0; j < n; j++ {
+				for i := 0; i < j; i++ {
+					if small("he", 0, 3) != 0 {
+						g.Add(i, j)
+					}
+				}
+			}
+			c.G = specOf(g)
+			c.Rep = rapid.SampledFrom([]string{"dense", "sparse"}).Draw(t, "rep")
+			for k := small("vsize", 1, 5); k > 0; k-- {
+				v := small("vv", 0, n-1)
+				dup := false
+				for _, x := range c.Ints {
+					if x == v {
+						dup = true
+					}
+				}
+				if !dup {
+					c.Ints = append(c.Ints, v)
+				}
+			}
+			return c
+		}
 		c.G = specOf(g)
 		c.Rep = rapid.SampledFrom(repNames).Draw(t, "rep")
 		c.Ints = genSubsetInAnyOrder(t, g.N)
